@@ -80,7 +80,8 @@ def judgeE2E (orig : List Nat) (np : Nat) (fx ins after unfix : List Nat) (reqsa
       let dom := orig ++ fx ++ ins ++ after
       if dom.all fun v => after.contains v == expectedAfter orig fx ins v then "spec=1"
       else "spec=0 why=reanalysis-differs-from-original-minus-fixed-plus-introduced"
-    else "spec=1"
+    else "spec=1"   -- several patches applied together: the property states the equation for a single patch only; the
+                    -- unactionable rule above and the written-as-reported check below still apply
 
 /-- "every reported PackageUpdate is applied in the written file", per manifest ENTRY: the re-read
 requirement entries are the original entries with the reported updates substituted (an update with no
